@@ -18,9 +18,9 @@ namespace RbModel.Hangul
 open RbModel.Gen.Hangul
 open RbModel.Spec.Hangul (K Support parse render)
 
-/-- the crate's syllable formula: `S_BASE + (l - L_BASE) * N_COUNT + (v - V_BASE) * T_COUNT + tindex`
-    (`t = TBase` = no trailing consonant) -/
-@[reducible] def syllable (l v t : Nat) : Nat := SBase + (l - LBase) * NCount + (v - VBase) * TCount + (t - TBase)
+/- `syllable l v t` (Lemmas/Hangul.lean) is the crate's syllable formula
+   `S_BASE + (l - L_BASE) * N_COUNT + (v - V_BASE) * T_COUNT + (t - T_BASE)` (`t = TBase` = no trailing consonant);
+   `partL s`, `partV s`, `partT s` are the L / V / T parts the `is_combined_s` branch computes from `s`. -/
 
 /-! ## C12_arith — the arithmetic -/
 
@@ -191,11 +191,6 @@ example := C12_compose_LV_T ⟨fun _ => true, fun _ => false, false, 0⟩ [] [] 
 
 /-! ## C12_decompose -/
 
-/-- the L / V / T parts the `is_combined_s` branch computes -/
-@[reducible] def partL (s : Nat) : Nat := LBase + (s - SBase) / NCount
-@[reducible] def partV (s : Nat) : Nat := VBase + (s - SBase) % NCount / TCount
-@[reducible] def partT (s : Nat) : Nat := TBase + (s - SBase) % NCount % TCount
-
 /-- A precomposed syllable the font does not have, whose jamo it has, becomes L V (T) with ljmo, vjmo (, tjmo).
     (For an LV syllable the next glyph must not be a trailing jamo — that is the `<LV,T>` case below.) -/
 theorem C12_decompose_S (c : Cfg) (pre post : List G) (s : G)
@@ -209,39 +204,10 @@ theorem C12_decompose_S (c : Cfg) (pre post : List G) (s : G)
                 ++ keys b := by
   have hsS : Spec.Hangul.isS s.cp = true := by rw [← isCombinedS_eq]; exact hs
   have hx := isS_not_VT hsS
-  have hLV : Spec.Hangul.isLV s.cp = decide (partT s.cp = TBase) := by
-    unfold Spec.Hangul.isLV partT; rw [← tindex_eq]
-    rw [Bool.eq_iff_iff]; simp
-  have hjam : jamoOf s.cp = [(partL s.cp, LJMO), (partV s.cp, VJMO)] ++ if partT s.cp = TBase then [] else [(partT s.cp, TJMO)] := by
-    unfold jamoOf
-    rw [hLV]
-    simp only [decide_eq_true_eq]
-    rw [← lpart_eq, ← vpart_eq, ← tpart_eq, ← tindex_eq]
-    rfl
-  have hok : jamoOK (sup c) s.cp = true := by
-    unfold jamoOK
-    rw [hLV, ← lpart_eq, ← vpart_eq, ← tpart_eq, ← tindex_eq]
-    simp only [sup, Bool.and_eq_true, Bool.or_eq_true, decide_eq_true_eq]
-    exact ⟨⟨hL, hV⟩, hT⟩
-  have := preprocess_chunk c pre [] post s (jamoOf s.cp)
+  have := preprocess_chunk c pre [] post s _
     ⟨by rw [isV_eq]; exact hx.1, by rw [isT_eq]; exact hx.2⟩ (by rw [isTone_eq]; exact isS_not_tone hsS)
-    (by
-      have hno' : (sup c).has s.cp = false := hno
-      simp only [keys_nil, List.nil_append, key, List.length_nil]
-      cases post with
-      | nil => rw [keys_nil, parse_S _ _ _ _ hsS (by simp)]; simp [hno', hok]
-      | cons y r =>
-        have hy := hpost y (by simp)
-        by_cases hyT : Spec.Hangul.isT y.cp = true
-        · have hnlv : Spec.Hangul.isLV s.cp = false := by
-            rw [hLV]; simp only [decide_eq_false_iff_not]; intro h; have := hy.1 h; rw [isT_eq, hyT] at this; cases this
-          simp only [keys_cons, key]
-          rw [parse_S_T _ _ _ _ _ _ hsS]
-          simp [hnlv, hno', hok]
-        · have hyT' : Spec.Hangul.isT y.cp = false := by simpa using hyT
-          rw [parse_S _ _ _ _ hsS (by simp [key, hyT'])]; simp [hno', hok])
-    (by unfold jamoOf; simp) (fun g hg => (hpost g hg).2)
-  rw [hjam] at this
+    (parse_decompose_S c post s hs hno hL hV hT (fun g hg => (hpost g hg).1)) (by simp)
+    (fun g hg => (hpost g hg).2)
   simpa using this
 
 example := C12_decompose_S ⟨fun u => decide (u < 0x2000), fun _ => false, false, 0⟩ [] [] ⟨0xAC01, 0, 0⟩
@@ -459,11 +425,52 @@ theorem C12_one_cluster_step (c : Cfg) (hlev : c.level = 0) (st : St) (x : G) (r
       keys (st'.out.drop st.out.length) = (parse (sup c) (key x) (keys rest)).1 ∧
       sameCluster (st'.out.drop st.out.length) := by
   obtain ⟨st', hst, _, _, h3, _, _, h6⟩ := step_syllable c st x rest hi hnt hp
-  refine ⟨st', hst, ?_, ?_, h6 hlev⟩
+  refine ⟨st', hst, ?_, ?_, h6.1 hlev⟩
   · rw [keys_take, h3, List.take_left' (by simp)]
   · rw [keys_drop, h3, List.drop_left' (by simp)]
 
 example := C12_one_cluster_step ⟨fun u => decide (u < 0x2000), fun _ => false, false, 0⟩ rfl
   { out := [], inp := [⟨0xAC01, 7, 0⟩], start := 0, end_ := 0 } ⟨0xAC01, 7, 0⟩ [] rfl (by decide) (by decide)
+
+
+/-- **One cluster, in the result** (the property's last sentence). Cluster level 0. A syllable chunk `x :: tail`
+    anywhere in a text — `syl ≠ []` is what the abstract parser renders it with: a composed syllable, the tagged
+    jamo of a decomposed one, tagged conjoining or old jamo, `<LV,T>` as three jamo — ends up, in the buffer
+    `preprocess_text_hangul` leaves behind, as the `syl.length` glyphs right after the rendering of the preceding
+    text, and all of them carry one cluster. (No tone mark right after the chunk: then it moves in front, see
+    `C12_tone_after_syllable`.) The later iterations only merge clusters (`AdjPres` in Lemmas): that is why
+    the block formed by the syllable's own iteration (`C12_one_cluster_step`) survives to the end. -/
+theorem C12_one_cluster (c : Cfg) (hlev : c.level = 0) (pre tail post : List G) (x : G) (syl : List K)
+    (hx : isL x.cp = true ∨ isCombinedS x.cp = true)
+    (hp : parse (sup c) (key x) (keys tail ++ keys post) = (syl, tail.length)) (hsyl : syl ≠ [])
+    (hpost : ∀ g ∈ post.head?, isTone g.cp = false) :
+    ∃ a r, preprocess c pre = some a ∧ preprocess c (pre ++ x :: tail ++ post) = some r ∧
+      keys ((r.drop a.length).take syl.length) = syl ∧ sameCluster ((r.drop a.length).take syl.length) := by
+  have h : (isV x.cp = false ∧ isT x.cp = false) ∧ isTone x.cp = false := by
+    cases hx with
+    | inl h => rw [isL_eq] at h; rw [isV_eq, isT_eq, isTone_eq]; exact ⟨isL_not_VT h, isL_not_tone h⟩
+    | inr h => rw [isCombinedS_eq] at h; rw [isV_eq, isT_eq, isTone_eq]; exact ⟨isS_not_VT h, isS_not_tone h⟩
+  exact one_cluster_chunk c hlev pre tail post x syl h.1 h.2 hp hsyl hpost
+
+/-- Instance: a precomposed syllable the font lacks, decomposed into its jamo — L, V (, T) share one cluster. -/
+theorem C12_one_cluster_decomposed (c : Cfg) (hlev : c.level = 0) (pre post : List G) (s : G)
+    (hs : isCombinedS s.cp = true) (hno : c.has s.cp = false)
+    (hL : c.has (partL s.cp) = true) (hV : c.has (partV s.cp) = true)
+    (hT : partT s.cp = TBase ∨ c.has (partT s.cp) = true)
+    (hpost : ∀ g ∈ post.head?, (partT s.cp = TBase → isT g.cp = false) ∧ isTone g.cp = false) :
+    ∃ a r, preprocess c pre = some a ∧ preprocess c (pre ++ s :: post) = some r ∧
+      sameCluster ((r.drop a.length).take (if partT s.cp = TBase then 2 else 3)) := by
+  obtain ⟨a, r, ha, hr, _, hc⟩ := C12_one_cluster c hlev pre [] post s _ (Or.inr hs)
+    (parse_decompose_S c post s hs hno hL hV hT (fun g hg => (hpost g hg).1)) (by simp)
+    (fun g hg => (hpost g hg).2)
+  refine ⟨a, r, ha, by simpa using hr, ?_⟩
+  have hlen : ([(partL s.cp, LJMO), (partV s.cp, VJMO)] ++ (if partT s.cp = TBase then [] else [(partT s.cp, TJMO)])).length
+      = if partT s.cp = TBase then 2 else 3 := by split <;> simp
+  rwa [hlen] at hc
+
+example := C12_one_cluster_decomposed ⟨fun u => decide (u < 0x2000), fun _ => false, false, 0⟩ rfl [] [] ⟨0xAC01, 0, 0⟩
+  (by decide) (by decide) (by decide) (by decide) (by decide) (by simp)
+example := C12_one_cluster ⟨fun u => decide (u < 0x2000), fun _ => false, false, 0⟩ rfl [] [⟨0x1161, 1, 0⟩, ⟨0x11A8, 2, 0⟩] []
+  ⟨0x1100, 0, 0⟩ [(0x1100, 1), (0x1161, 2), (0x11A8, 3)] (by decide) (by decide) (by simp) (by simp)
 
 end RbModel.Hangul
